@@ -178,6 +178,12 @@ func main() {
 			}
 			r.entries[id] = e
 			tr.Emit(hx.M{"op": "req", "id": id, "filter": filter, "half": half})
+			if r.recycle > 0 {
+				// The slot hands the rejecting nodes to the recycler / retryer goroutines through a channel.  In the
+				// timer scenarios "scheduled" must be ordered before the completions that follow, so give those
+				// goroutines time to take the task (nothing observable tells when they did).
+				time.Sleep(15 * time.Millisecond)
+			}
 		case "done":
 			id := hx.Int(s, "id")
 			e := r.entries[id]
@@ -217,6 +223,9 @@ func main() {
 			deadline := time.Now().Add(30 * time.Second)
 			for {
 				f, h := r.observe()
+				if os.Getenv("C20_DEBUG") != "" {
+					fmt.Fprintf(os.Stderr, "poll +%v filter=%v half=%v\n", time.Since(r.started), f, h)
+				}
 				if !contains(f, sentinel) && !contains(h, sentinel) {
 					break
 				}
@@ -227,6 +236,9 @@ func main() {
 			}
 			time.Sleep(120 * time.Millisecond) // timers armed by the same task fire together; let the callbacks finish
 			f, h := r.observe()
+			if os.Getenv("C20_DEBUG") != "" {
+				fmt.Fprintf(os.Stderr, "final +%v filter=%v half=%v\n", time.Since(r.started), f, h)
+			}
 			if el := time.Since(r.started); el > 2*r.recycle-300*time.Millisecond {
 				hx.Fatal("trace %d: observation too late (%v after the first request): timing unsafe", r.tr, el)
 			}
